@@ -29,7 +29,7 @@ PLAN = {
                 quick=[("rt", "release", 30000), ("dmg", "release", 150), ("dmgcat", "release", 150), ("synth", "release", 20000), ("bent", "release", 12000), ("dmggen", "release", 80)],
                 thorough=[("rt", "release", 1000000), ("dmg", "release", 4000), ("dmgcat", "release", 4000), ("synth", "release", 1500000), ("synth", "checked", 200000), ("bent", "release", 1000000), ("bent", "checked", 200000), ("dmggen", "release", 2000)],
                 assumptions=[]),
-    "C13": dict(level="fault_enumeration",
+    "C13": dict(level="fault_enumeration", supplement="sysfault",
                 rule=("each run draws one transaction (encode+finalize through a writer front-end on a raw / caller-buffered / "
                       "crate-style owned-BufWriter sink; write_blocks; update_file in place or rebuilt; FlacStreamWriter; "
                       "read-side decode / verify / FrameIterator / generate_seektable), executes a fault-free twin to count its "
@@ -42,7 +42,7 @@ PLAN = {
                 thorough=[("c13", "release", 220000), ("c13", "checked", 40000)],
                 assumptions=["hard faults are ErrorKind::Other / StorageFull / Ok(0); an injected UnexpectedEof is indistinguishable from a real end and is excluded",
                              "nothing is asserted about calls made after the first Err"]),
-    "C14": dict(level="fault_enumeration",
+    "C14": dict(level="fault_enumeration", supplement="sysfault",
                 rule=("each run encodes a drawn PCM through a drawn front-end (optionally behind a BufWriter) and leaks the writer "
                       "before finalize; every prefix of the append stream at write-call granularity, and at every byte for small "
                       "outputs, is handed to a reader (rotating over the 10 reader front-ends and verify_reader); one prefix x "
@@ -51,7 +51,7 @@ PLAN = {
                 quick=[("c14", "release", 1200)],
                 thorough=[("c14", "release", 600000), ("c14", "checked", 100000)],
                 assumptions=["frame boundaries of the append stream come from refflac", "crashes during finalize are outside the property"]),
-    "C07": dict(level="exploration",
+    "C07": dict(level="exploration", supplement="sysfault",
                 rule=("each run builds a valid file with non-periodic PCM, opens one reader front-end over a SimFile behind drawn benign "
                       "read faults, an optional BufReader of drawn capacity and an optional split point, and drives a drawn history of "
                       "1-40 operations from {read(n), fill_buf, consume(k), read_to_end, read bursts, iterator} plus 1-5 calls after "
@@ -123,7 +123,7 @@ PLAN = {
                 thorough=[("dmg", "release", 6000), ("dmg", "checked", 1000), ("dmgcat", "release", 5000), ("bent", "release", 1000000), ("bent", "checked", 100000), ("dmggen", "release", 3000), ("dmggen", "checked", 500)],
                 assumptions=["refflac decides whether altered bytes happen to be another valid stream",
                              "checksum-consistent random edits are not judged for silent acceptance (C03's question)"]),
-    "C10": dict(level="exploration",
+    "C10": dict(level="exploration", supplement="sysfault",
                 rule=("each run builds a finished file with 0/1/several padding blocks and drawn comment/picture/application/seek-table/"
                       "cue-sheet blocks, then applies a history of 1-12 update_file calls on the simulated disk (benign faults on both "
                       "files): comment growth sized to land -8..+8 bytes around the exact fit of the first padding block, add/drop "
